@@ -29,10 +29,12 @@
 #include "nmtools/array/array/transpose.hpp"
 #include "nmtools/array/array/reshape.hpp"
 #include "nmtools/array/array/flatten.hpp"
-// view::stack calls `expand_dims(lhs, axis)` unqualified: with array/expand_dims.hpp in the same TU the call is
-// ambiguous through ADL (compile error).  A TU that compiles STACK therefore evaluates expand_dims through array::eval.
+// view::stack calls `concatenate(expand_dims(lhs, axis), …)` unqualified: with array/expand_dims.hpp or
+// array/concatenate.hpp in the same TU these calls are ambiguous through ADL (compile error).  A TU that compiles STACK
+// therefore evaluates expand_dims through array::eval and has no concatenate.
 #ifndef C10_WITH_STACK
 #include "nmtools/array/array/expand_dims.hpp"
+#include "nmtools/array/array/concatenate.hpp"
 #endif
 #include "nmtools/array/array/squeeze.hpp"
 #include "nmtools/array/array/flip.hpp"
@@ -58,7 +60,6 @@
 #include "nmtools/array/array/prod.hpp"
 #include "nmtools/array/array/cumsum.hpp"
 #include "nmtools/array/array/matmul.hpp"
-#include "nmtools/array/array/concatenate.hpp"
 #include "nmtools/array/array/stack.hpp"
 #include "nmtools/array/array/softmax.hpp"
 #include "c10_common.hpp"
@@ -116,12 +117,21 @@ std::string apply_op(const X& x, const Op& op, const P& p, bool eager, K k) {
     // array::cumsum through ADL once array/cumsum.hpp is included
     C10_CASE(CUMSUM,      int ax = op.i(0); C10_BOTH(cumsum, x, ax, nm::None))
     C10_CASE(MATMUL,      C10_BOTH(matmul, x, p.b))
+#ifndef C10_WITH_STACK
     C10_CASE(CONCATENATE, int ax = op.i(0); C10_BOTH(concatenate, x, p.b, ax))
-#ifdef C10_WITH_STACK
+#else
     C10_CASE(STACK,       int ax = op.i(0); C10_BOTH(stack, x, p.b, ax))
 #endif
     C10_CASE(SOFTMAX,     int ax = op.i(0); C10_BOTH(softmax, x, ax))
     C10_CASE(SUMRT,       int ax = op.i(0); bool keep = op.i(1) != 0; C10_BOTH(sum, x, ax, nm::None, nm::None, keep))
+    C10_CASE(TRANSPOSE_N, C10_BOTH(transpose, x, nm::None))
+    C10_CASE(RESHAPE_CT,  auto s = nmtools_tuple{meta::ct_v<3>, meta::ct_v<2>}; C10_BOTH(reshape, x, s))
+    C10_CASE(SUM_CT,      C10_BOTH(sum, x, meta::ct_v<0>, nm::None, nm::None, nm::True))
+    C10_CASE(TILE_CT,     auto r = nmtools_tuple{meta::ct_v<2>, meta::ct_v<1>}; C10_BOTH(tile, x, r))
+    C10_CASE(ADDSELF,     C10_BOTH(add, x, x))
+#ifndef C10_WITH_STACK
+    C10_CASE(CONCATSELF,  C10_BOTH(concatenate, x, x, meta::ct_v<0>))
+#endif
     default: break;
     }
 #undef C10_CASE
